@@ -223,7 +223,7 @@ def run(ctx):
      ctx.violation('R3', 'SymbolTable.__getstate__', gs.where, f'SymbolTable drops {_dropped(gs)} and restores {_restored(ss)}'))
     rp = m.get_function('loki/types/scope.py', 'Scope._reset_parent')
     src = ast.unparse(rp.node)
-    ok = 'self.symbol_attrs.parent = self.parent.symbol_attrs' in src
+    ok = X.has(src, 'self.symbol_attrs.parent = self.parent.symbol_attrs')
     (ctx.judge('R3', 'Scope._reset_parent re-links the symbol table') if ok else
      ctx.violation('R3', 'Scope._reset_parent', rp.where, '_reset_parent does not re-link symbol_attrs.parent'))
     # program units: contents (spec/body/contains, symbol table) are part of the pickled dict, i.e. not in the ignore lists
